@@ -18,8 +18,9 @@ type c15Case struct {
 }
 
 func c15Judge(k c15Case) *vlib.Failure {
-	mb, errB := cors.NewMiddleware(k.Base.Config())
-	mt, errT := cors.NewMiddleware(k.Twin.Config())
+	cb, ct := k.Base.Config(), k.Twin.Config() // the same two values are handed over again further down
+	mb, errB := cors.NewMiddleware(cb)
+	mt, errT := cors.NewMiddleware(ct)
 	if (errB == nil) != (errT == nil) {
 		return vlib.Failf("base and twin (%s) are not both accepted: base err=%v, twin err=%v", k.How, errB, errT)
 	}
@@ -50,7 +51,6 @@ func c15Judge(k c15Case) *vlib.Failure {
 	if e1 != nil || e2 != nil {
 		return nil // this base has no such predecessor (e.g. its lists end with an entry that forbids more)
 	}
-	cb, ct := k.Base.Config(), k.Twin.Config()
 	if e1, e2 := pb.Reconfigure(&cb), pt.Reconfigure(&ct); e1 != nil || e2 != nil {
 		return vlib.Failf("base and twin (%s) are accepted by NewMiddleware but not by Reconfigure on a configured middleware: base err=%v, twin err=%v", k.How, e1, e2)
 	}
